@@ -25,6 +25,10 @@ body becomes a block of Model/H5Append.v -
                                                             quantifies over it (history of the object, contents of arguments)
  a `switch (at)` with `break`-terminated cases becomes a chain of ACond.
 
+The `_appendData` template itself becomes `gen_appenddata_shape`: one entry per statement (DExtend for the one that calls
+`.extend`, DWrite for `.write`, DBranch/DReturn/DLoop for any control flow, DOther otherwise); its index arithmetic is C10's
+(Gen_H5Index: `gen_ad_extent`, `gen_ad_dims_after` = old extent + size).
+
 Which member is which dataset is read from the constructor's mem-initialisers (`_makeDatasetInfo<..>("/path", ..)`).
 Also emitted: `gen_append_member_writes` (method, member) for every assignment to a member of the object inside these
 methods (a member that REMEMBERS earlier calls; informational: remembering is harmless until a condition reads it, and
@@ -178,6 +182,61 @@ def dataset_members(docs):
             raise TranslateError("constructor: the path of dataset member %s is not a string literal" % c["anyInit"].get("name"))
         res[c["anyInit"]["name"]] = strs[0]
     return res
+
+
+def appenddata_shape(docs):
+    """the statements of the `_appendData` template (pattern and every instantiation clang lists must agree): DExtend / DWrite for
+    the statement that calls `.extend(..)` / `.write(..)`, DBranch / DReturn / DLoop for control flow at any depth, DOther else"""
+    shapes = []
+    for d in docs:
+        if d.get("kind") != "FunctionTemplateDecl" or d.get("name") != "_appendData":
+            continue
+        for c in d.get("inner", []):
+            if c.get("kind") != "CXXMethodDecl":
+                continue
+            body = [x for x in c.get("inner", []) if x.get("kind") == "CompoundStmt"]
+            if not body:
+                continue
+            items = []
+
+            def callee_names(n):
+                res = []
+                for x in walk(n):
+                    if x.get("kind") in ("CXXMemberCallExpr", "CallExpr") and kids(x):
+                        c0 = unwrap(kids(x)[0])
+                        if c0.get("kind") in ("MemberExpr", "CXXDependentScopeMemberExpr"):
+                            res.append(c0.get("member") or c0.get("name"))
+                return res
+
+            def go(st):
+                k = st.get("kind")
+                if k == "CompoundStmt":
+                    for y in kids(st):
+                        go(y)
+                    return
+                if k == "NullStmt":
+                    return
+                kinds = [x.get("kind") for x in walk(st, into_lambda=False)]
+                if any(q in kinds for q in ("IfStmt", "SwitchStmt", "CXXTryStmt", "CXXThrowExpr", "GotoStmt")):
+                    items.append("DBranch")
+                    return
+                if "ReturnStmt" in kinds:
+                    items.append("DReturn")
+                    return
+                if any(q in kinds for q in ("ForStmt", "WhileStmt", "DoStmt", "CXXForRangeStmt")):
+                    items.append("DLoop")
+                    return
+                names = callee_names(st)
+                if "extend" in names and "write" in names:
+                    raise TranslateError("_appendData: extend and write in one statement")
+                items.append("DExtend" if "extend" in names else "DWrite" if "write" in names else "DOther")
+            go(body[0])
+            shapes.append(items)
+    if not shapes:
+        raise TranslateError("no definition of the _appendData template with a body found")
+    if any(sh != shapes[0] for sh in shapes):
+        raise TranslateError("_appendData: the template pattern and its instantiations have different statement shapes")
+    return shapes[0]
 
 
 class Body:
@@ -473,6 +532,8 @@ def translate():
         blk, nm, ln = bodies[k]
         out.append("(* HDF5File::%s *)" % nm)
         out.append("Definition gen_body_%s : ablk :=\n  %s." % (k, blk))
+    out.append("(* the statements of the _appendData template: the dataset is extended once and written once, no control flow *)")
+    out.append("Definition gen_appenddata_shape : list adstmt := [%s]." % "; ".join(appenddata_shape(docs)))
     out.append("(* the conditions the translator cannot evaluate from the AppendType / bool parameters: (n, method, source text, members of")
     out.append("   the object they read) - their values are quantified over (C14_append_records_all_or_nothing) *)")
     out.append("Definition gen_append_opaque : list (Z * string * string * list string) :=\n  [%s]." % ";\n   ".join(
